@@ -39,6 +39,16 @@ impl Session {
         self.driver.step(&mut opened.account).await
     }
 
+    pub fn choose(&mut self) -> usize {
+        self.driver.choose()
+    }
+
+    pub async fn run_choice(&mut self, choice: usize) -> StepOutcome {
+        self.steps += 1;
+        let opened = self.opened.as_mut().unwrap();
+        self.driver.run_choice(choice, &mut opened.account).await
+    }
+
     pub async fn live_view(&mut self) -> Result<(AccountView, Vec<Diff>), SnapError> {
         snapshot::live(&mut self.opened.as_mut().unwrap().account).await
     }
